@@ -111,11 +111,42 @@ fn exercise(schema_src: &str, doc_src: &str, obs: &mut Obs) {
 // adversarial families: valid GraphQL whose only possible complaint is a limit
 // ---------------------------------------------------------------------------------------------
 
-pub const FAMILIES: [&str; 18] = [
+pub const FAMILIES: [&str; 19] = [
     "frag-deep", "frag-deep-inline", "frag-flat", "frag-nested", "frag-inline", "sel-depth", "inline-depth", "directive-chain", "input-chain",
     "list-type", "object-value", "list-value", "merge-depth", "var-deep",
-    "input-chain-wide", "input-nullable-cycle", "directive-type-chain", "directive-enum-chain",
+    "input-chain-wide", "input-nullable-cycle", "directive-type-chain", "directive-enum-chain", "default-value",
 ];
+
+/// Operation-kind variants of the document-centred families (`family_variant`): the same nesting reached from a
+/// subscription (its own root-level walker, `validate_subscription`), a mutation, a named query with a variable
+/// (the unused-variable walker), and two operations sharing the fragments (per-operation caches).
+pub const VARIANT_FAMILIES: [&str; 8] = ["frag-flat", "frag-deep", "frag-deep-inline", "frag-nested", "frag-inline", "sel-depth", "inline-depth", "merge-depth"];
+pub const VARIANTS: [&str; 4] = ["subscription", "mutation", "named-with-variable", "two-operations"];
+pub fn variant_sizes(thorough: bool) -> Vec<usize> {
+    let mut v = vec![3usize, 99, 100, 101, 499, 500, 501, 3000];
+    if thorough { v.extend([1, 2, 31, 32, 33, 49, 50, 51, 63, 64, 65, 98, 102, 127, 128, 129, 249, 250, 251, 255, 256, 257, 498, 502, 1000, 10000]); }
+    v.sort(); v
+}
+
+pub fn family_variant(name: &str, n: usize, variant: &str) -> (String, String) {
+    let (mut s, mut d) = family(name, n);
+    let (op, rest) = match d.find("fragment F") { Some(i) => (d[..i].to_string(), d[i..].to_string()), None => (d.clone(), String::new()) };
+    match variant {
+        "subscription" | "mutation" => {
+            // the nesting hangs off a root type of its own; a subscription has exactly one root response key in
+            // every one of these families (`a`, `q`, or the spread fragments all selecting `a`)
+            s = s.replace("type Query {", "type S {").replace("q: Query", "q: S");
+            write!(s, "\ntype Query {{ z: Int }}\nschema {{ query: Query {variant}: S }}").unwrap();
+            d = format!("{variant} {}", d.replace(" on Query", " on S"));
+        }
+        "named-with-variable" => {
+            let body = op.trim_start().strip_prefix('{').unwrap_or(&op);
+            d = format!("query Q($b: Boolean = true) {{ v: a @include(if: $b) {body}{rest}");
+        }
+        _ => { d = format!("query A {op}\nquery B {op}\n{rest}"); }
+    }
+    (s, d)
+}
 
 /// self-referential schemas: never valid, must be rejected (cycle or limit diagnostic), never crash
 pub const CYCLE_FAMILIES: [&str; 4] = ["input-cycle", "input-cycle-mid", "directive-type-cycle", "directive-arg-cycle"];
@@ -243,6 +274,12 @@ pub fn family(name: &str, n: usize) -> (String, String) {
             let one = format!("{}a{}", "q {\n".repeat(n), " }".repeat(n));
             write!(d, "{{ {one} {one} }}").unwrap();
         }
+        "default-value" => {
+            // the same deep input-object literal as an argument default in the schema and a variable default in the document
+            let v = format!("{}null{}", "{a: ".repeat(n), "}".repeat(n));
+            write!(s, "type Query {{ f(x: I = {v}): Int }} input I {{ a: I }}").unwrap();
+            write!(d, "query($v: I = {v}) {{ f(x: $v) }}").unwrap();
+        }
         "var-deep" => {
             s.push_str("type Query { a(x: Int): Int q: Query }");
             d.push_str("query($v: Int) "); d.push_str(&"{ q\n".repeat(n)); d.push_str("{ a(x: $v) }"); d.push_str(&" }".repeat(n));
@@ -356,6 +393,16 @@ fn soup(rng: &mut Rng, wild: u32) -> (String, String) {
     }
     if rng.chance(wild, 16) { d.push_str("{ a } "); }
     if rng.chance(wild, 16) { d.push_str("subscription { a q { a } } "); }
+    // other root operation types, with their own operations: fragments at the subscription root (its walker looks
+    // at the root level only), spread twice, cyclic or with several root fields when wild
+    if rng.chance(1, 3) {
+        write!(s, "type Mutation {{ m(x: I0): T0 q: Query }}\ntype Subscription {{ s(x: I0): T0 r: Int q: Query }}\n").unwrap();
+        if rng.chance(wild, 8) { s.push_str("schema { query: Query mutation: Mutation subscription: Subscription }\n"); }
+        write!(d, "mutation M{} {{ m(x: {{x: null}}) {{ __typename }} q {{ ...F0 }} }} ", dirs(rng, 0)).unwrap();
+        let back = if rng.chance(wild, 4) { "...SF " } else { "" };
+        let extra = if rng.chance(wild, 4) { *rng.pick(&["r ", "__typename ", "k: s { __typename } ", "s @skip(if: true) { __typename } ", "...Nope ", "... on Subscription { ...Nope } "]) } else { "" };
+        write!(d, "subscription S {{ ...SF ...SF {extra}}} fragment SF on Subscription{} {{ s {{ __typename }} ... on Subscription {{ ...SF2 }} }} fragment SF2 on Subscription {{ s {{ __typename }} ... {{ {back}s {{ ...F0 }} }} }} ", dirs(rng, 0)).unwrap();
+    }
     (s, d)
 }
 
@@ -424,6 +471,11 @@ pub fn child_main(spec: &str) {
             let n: usize = parts[2].parse().unwrap();
             let (s, d) = family(parts[1], n);
             run_instance(&format!("{}:{n}", parts[1]), s, d);
+        }
+        "variant" => {
+            let n: usize = parts[3].parse().unwrap();
+            let (s, d) = family_variant(parts[1], n, parts[2]);
+            run_instance(&format!("{}:{}:{n}", parts[1], parts[2]), s, d);
         }
         "soup" => {
             let seed: u64 = parts[1].parse().unwrap();
@@ -858,6 +910,26 @@ pub fn run(ctx: &mut Ctx) {
             let clip = |t: &str| if t.len() > 400 { format!("{}…[{} bytes]", &t[..t.char_indices().nth(300).map(|x| x.0).unwrap_or(0)], t.len()) } else { t.to_string() };
             format!("family {name} size {n}; schema: {} ; document: {}", clip(&s), clip(&d))
         };
+        digest(ctx, spec, r, &describe, true);
+    }
+    // the same nestings under other kinds of operation
+    let mut specs = vec![];
+    for f in VARIANT_FAMILIES { for v in VARIANTS {
+        // in the two product families n is the nesting inside each of 98 fragments: the walkers' limits (100 names,
+        // 500 calls) are crossed at small n, and the texts grow 98-fold
+        let sizes = if f.starts_with("frag-deep") { if ctx.thorough { vec![1, 2, 3, 4, 5, 6, 7, 10, 25, 49, 50, 51, 100, 250, 499, 500, 501] } else { vec![2, 3, 5, 6, 50, 100] } } else { variant_sizes(ctx.thorough) };
+        for n in sizes { specs.push(format!("variant:{f}:{v}:{n}")); }
+    } }
+    let results = run_children(&specs);
+    for (spec, r) in specs.iter().zip(results.iter()) {
+        let describe = |id: &str| -> String {
+            let p: Vec<&str> = id.split(':').collect();
+            let (name, variant, n) = if p[0] == "variant" { (p[1], p[2], p[3]) } else { (p[0], p.get(1).copied().unwrap_or(""), p.get(2).copied().unwrap_or("0")) };
+            let (s, d) = family_variant(name, n.parse().unwrap_or(1), variant);
+            let clip = |t: &str| if t.len() > 400 { format!("{}…[{} bytes]", &t[..t.char_indices().nth(300).map(|x| x.0).unwrap_or(0)], t.len()) } else { t.to_string() };
+            format!("family {name} as {variant}, size {n}; schema: {} ; document: {}", clip(&s), clip(&d))
+        };
+        ctx.stat("family:operation_kind_variants");
         digest(ctx, spec, r, &describe, true);
     }
     // self-referential schemas
